@@ -637,7 +637,11 @@ func TestVerif_C01_diversity(t *testing.T) {
 
 // ---- C02 ---------------------------------------------------------------------------------------
 
-func vOracleC02(c *vh.Case, res *vLkResult, d *vLkDerived) {
+func vOracleC02(c *vh.Case, res *vLkResult, d *vLkDerived) { vOracleC02x(c, res, d, true) }
+
+// vOracleC02x: hyp tells whether the scenario satisfies the property's hypothesis (every peer answers, k-bucket
+// complete knowledge); the termination and contact clauses (c), (d) hold for every uncancelled lookup.
+func vOracleC02x(c *vh.Case, res *vLkResult, d *vLkDerived, hyp bool) {
 	n, sc, K, B := res.n, res.sc, res.sc.Cfg.K, res.sc.Cfg.B
 	R := res.R
 	if res.Err != nil {
@@ -650,11 +654,11 @@ func vOracleC02(c *vh.Case, res *vLkResult, d *vLkDerived) {
 	}
 	global := vNearest(sc.Key, all, K)
 	// (a) globally nearest peer first
-	if len(global) > 0 {
+	if hyp && len(global) > 0 {
 		c.Check(len(R) > 0 && R[0] == global[0], "global-nearest-first", "R[0]=%v, globally nearest simulated peer is %s (N=%d, knowledge=%s, K/a/b=%d/%d/%d)", n.Names(R[:min(1, len(R))]), n.Name(global[0]), sc.Cfg.N, sc.Cfg.Knowledge, K, sc.Cfg.A, B)
 	}
 	// (b) full knowledge: exactly the K globally nearest
-	if sc.Cfg.Knowledge == "full" {
+	if hyp && sc.Cfg.Knowledge == "full" {
 		c.Check(vEqualIDs(R, global), "full-knowledge-exact", "R=%v, K globally nearest=%v", n.Names(R), n.Names(global))
 	}
 	// (c) at the terminate event the beta nearest of L\F have answered, or nothing is left to ask
@@ -702,6 +706,9 @@ func vOracleC02(c *vh.Case, res *vLkResult, d *vLkDerived) {
 		}
 	}
 	c.Check(ok, "every-returned-peer-asked", "returned peers never sent the request: %v", missing)
+	if !hyp {
+		return
+	}
 	// (e) side effect of a completed lookup: the key's bucket refresh stamp advanced
 	cpl := vsim.CPL(vsim.KadID([]byte(n.Self)), vsim.KadID([]byte(sc.Key)))
 	if cpl < len(res.RefreshAfter) {
@@ -725,6 +732,31 @@ func TestVerif_C02_converge(t *testing.T) {
 				vOracleC02(c, res, d)
 				vLkDescribe(c, res, d)
 				if d.hops >= 2 && sc.Cfg.N > sc.Cfg.K {
+					c.Nontrivial(vLkSig(res, d))
+				}
+			})
+		})
+}
+
+// C02 (c)/(d) under failures: the end condition and the contact obligation do not depend on the hypothesis.
+func TestVerif_C02_terminate(t *testing.T) {
+	vh.Run(t, vh.Spec{Prop: "C02", Unit: "terminate", Quick: 2000, Thorough: 40000, CostMs: 25,
+		Rule: "the C01 networks with failing (dial / request / silent), lying and filtered peers, never cancelled; oracle = clauses (c) and (d) only: at the terminate event the beta nearest learned non-failed peers have answered (or, on starvation, every learned non-failed peer has), and every returned peer was sent the request; non-trivial = >= 2 hops and at least one peer had failed before the lookup terminated; distinct by (shape, behaviour mix, arrival order)",
+		Clauses: []string{"beta-nearest-answered", "starvation-means-all-asked", "every-returned-peer-asked"}},
+		func(c *vh.Case) {
+			sc := vGenLkScenario(c, false)
+			sc.CancelAt = 0
+			if sc.FailFrac == 0 {
+				sc.FailFrac = 0.3
+			}
+			c.Bubble(t, 30*time.Minute, "lookup-hang", func(t *testing.T) {
+				res := vRunLookup(t, c, sc)
+				d := vOracleC01(c, res)
+				if !errors.Is(res.Err, kb.ErrLookupFailure) {
+					vOracleC02x(c, res, d, false)
+				}
+				vLkDescribe(c, res, d)
+				if d.hops >= 2 && len(d.F) > 0 {
 					c.Nontrivial(vLkSig(res, d))
 				}
 			})
